@@ -1,12 +1,14 @@
 import Model
 import Model.Elab
 import Proofs.Walk
+import Proofs.Team
 /-!
 C03 — a scheduled task receives exactly its effort.
 
 Exactness of the credit and of the tail release (for every effort, efficiency, resolution and
-prior usage of the slot); one candidate set; and the team clause: refuted at full strength by the two
-open findings F31/F32 (witness runs of the model, `decide +kernel`), so it is a search-only clause.
+prior usage of the slot); one candidate set; and the team clause: the members of a team are levelled to
+the busiest member before they are booked, so they are booked for the same seconds of every slot, and a
+limit counter the members share is checked for the whole team (findings F31/F32, repaired in /repo).
 -/
 namespace SP.C03
 open SP
@@ -63,18 +65,20 @@ theorem selection_sticks (e : Env) (σ : St) (t : Nat) (w : Walk) (s : List Nat)
     selectedOf e σ t w = s := by
   unfold selectedOf; rw [h]
 
-/-! ### the team clause — open findings -/
+/-! ### the team clause -/
 
-/-- the team clause of C03 at the level of one slot: when a team task books the same slot on two
-    members (each satisfying the slot invariant), both receive the same seconds -/
+/-- the team clause of C03 at the level of one slot, for members booked one by one without levelling:
+    when a team task books the same slot on two members (each satisfying the slot invariant), both
+    receive the same seconds -/
 def TeamSameSeconds : Prop :=
   ∀ (G : Int) (s0 s1 : Slot) (t : Nat), 0 < G → SlotInv G s0 → SlotInv G s1 →
     availSecs G s0 > 0 → availSecs G s1 > 0 →
     usageOf (s0.book G t).usage t = usageOf (s1.book G t).usage t
 
-/-- **refuted** (open finding F32): member r0 already carries 1200 s of another task in the slot, member
-    r1 is free; both pass the availability gate, r0 is booked for 2400 s and r1 for 3600 s -/
-theorem team_full_fails : ¬ TeamSameSeconds := by
+/-- **refuted** — this was finding F32 on the pinned code, which booked the members as they were: member r0
+    already carries 1200 s of another task in the slot, member r1 is free; both pass the availability gate,
+    r0 is booked for 2400 s and r1 for 3600 s.  The repaired code levels the team first (next theorems). -/
+theorem unlevelled_team_fails : ¬ TeamSameSeconds := by
   intro h
   have hs0 : SlotInv 3600 { used := 1200, usage := [(0, 1200)] } :=
     ⟨by decide +kernel, by decide +kernel, by decide +kernel, by intro e he; simp at he; subst he; decide +kernel⟩
@@ -83,7 +87,7 @@ theorem team_full_fails : ¬ TeamSameSeconds := by
   revert this
   decide +kernel
 
-/-- **partial**: members whose slots are equally used receive the same seconds -/
+/-- members whose slots are equally used receive the same seconds -/
 theorem team_partial (G : Int) (s0 s1 : Slot) (t : Nat) (hu : s0.used = s1.used)
     (h0 : usageOf s0.usage t = none) (h1 : usageOf s1.usage t = none) :
     usageOf (s0.book G t).usage t = usageOf (s1.book G t).usage t := by
@@ -101,6 +105,57 @@ theorem team_partial (G : Int) (s0 s1 : Slot) (t : Nat) (hu : s0.used = s1.used)
   simp only [Slot.book]
   rw [key _ _ h0, key _ _ h1]
   simp [availSecs, hu]
+
+/-- **levelling** (`bookResources` after the repair of F32): in the state the members are booked in, every
+    member's slot is used up to the same instant — that of the busiest member — whatever was there before -/
+theorem team_levelled (σ : St) (cur : Int) (sel : List Nat) (r0 r1 : Nat) (h0 : r0 ∈ sel) (h1 : r1 ∈ sel) :
+    ((levelTeam σ cur sel).led.get r0 cur).used = ((levelTeam σ cur sel).led.get r1 cur).used := by
+  rw [levelTeam_used σ cur sel r0 h0, levelTeam_used σ cur sel r1 h1]
+
+/-- **same instants**: any two members of a levelled team are booked for the same seconds of the slot,
+    `[common, G)` — for every state, every team, every slot -/
+theorem team_same_seconds (G : Int) (σ : St) (t : Nat) (cur : Int) (sel : List Nat) (r0 r1 : Nat)
+    (h0 : r0 ∈ sel) (h1 : r1 ∈ sel)
+    (hn0 : usageOf (σ.led.get r0 cur).usage t = none) (hn1 : usageOf (σ.led.get r1 cur).usage t = none) :
+    usageOf (((levelTeam σ cur sel).led.get r0 cur).book G t).usage t =
+      usageOf (((levelTeam σ cur sel).led.get r1 cur).book G t).usage t := by
+  apply team_partial G _ _ t (team_levelled σ cur sel r0 r1 h0 h1)
+  · rw [levelTeam_usage]; exact hn0
+  · rw [levelTeam_usage]; exact hn1
+
+/-- the state a team is booked in is the levelled one -/
+theorem team_is_levelled (e : Env) (σ : St) (t : Nat) (cur : Int) (sel : List Nat) (h : isTeam e t sel = true) :
+    leveled e σ t cur sel = levelTeam σ cur sel := by
+  unfold leveled; simp [h]
+
+/-- **shared resource limit** (finding F31, repaired): a limit counter that both members of a team increment
+    (a limit on a group above both) must have room for both — with room for one only, the gate rejects the
+    team and nobody is booked -/
+theorem shared_limit_counts_whole_team (e : Env) (wf : WF e) (σ : St) (t : Nat) (i : Int) (r0 r1 lid : Nat)
+    (h0 : lid ∈ resLimitIds e r0) (h1 : lid ∈ resLimitIds e r1)
+    (hnof : (e.limitD lid).res = none) (hk : 0 ≤ e.period (e.limitD lid) i)
+    (hleft : (e.limitD lid).value ≤ σ.cnt.get lid (e.period (e.limitD lid) i) + 1) :
+    teamGateOk e t i σ [r0, r1] = false := by
+  cases hg : teamGateOk e t i σ [r0, r1] with
+  | false => rfl
+  | true =>
+    exfalso
+    simp only [teamGateOk, Bool.and_true, Bool.and_eq_true] at hg
+    obtain ⟨_, ⟨ha1, _⟩⟩ := hg
+    have hok := (available_true ha1).2.2 lid h1
+    unfold limitOk at hok
+    simp only [hnof, Option.isSome_none, Bool.false_and, Bool.false_eq_true, if_false] at hok
+    have hk' : ¬ e.period (e.limitD lid) i < 0 := by omega
+    simp only [hk', if_false, decide_eq_true_eq] at hok
+    have hcnt := incAll_cnt_mem e σ (bookPairs e r0 t) i lid none
+      (by
+        have : (bookPairs e r0 t).map (·.1) = resLimitIds e r0 ++ taskLimitIds e t := by
+          simp [bookPairs, List.map_append, List.map_map, Function.comp_def]
+        rw [this]; exact wf.lim_nodup r0 t)
+      (by simp only [bookPairs, List.mem_append, List.mem_map]; exact Or.inl ⟨lid, h0, rfl⟩)
+      (by simp [hnof]) hk
+    rw [countMember_eq] at hok
+    omega
 
 example : usageOf ({ used := 1200, usage := [(0, 1200)] } : Slot).usage 1 = none := by decide +kernel
 
